@@ -62,36 +62,46 @@ Section Rules.
   Variable excluded ignored : file -> bool.
   Definition visible (f : file) : bool := negb (excluded f || ignored f).
 
-  Definition lint_file (is : list inst) (f : file) : option (list violation * list inst) :=
-    if excluded f then Some ([], is)
-    else if ignored f then Some ([], is)
-    else exec_rules all_rules is f.
+  Variable rules : list rule.                              (* the rule classes discovery finds, in registry order *)
+
+  (* the registry of an Orchestrator: empty until _ensure_rules_discovered runs (None), then one instance per class *)
+  Definition registry : Type := option (list inst).
+  Definition ensure (o : registry) : list inst := match o with Some is => is | None => fresh rules end.
+  Definition list_all (o : registry) : list inst := match o with Some is => is | None => [] end.
+
+  (* lint_file: the two skip tests, then discovery (_get_rules_for_file) and every registered rule *)
+  Definition lint_file (o : registry) (f : file) : option (list violation * registry) :=
+    if excluded f then Some ([], o)
+    else if ignored f then Some ([], o)
+    else match exec_rules all_rules (ensure o) f with
+         | None => None
+         | Some (vs, is') => Some (vs, Some is')
+         end.
 
   (* the file loop of lint_files / lint_directory *)
-  Fixpoint lint_loop (is : list inst) (files : list file) : option (list violation * list inst) :=
+  Fixpoint lint_loop (o : registry) (files : list file) : option (list violation * registry) :=
     match files with
-    | [] => Some ([], is)
+    | [] => Some ([], o)
     | f :: fs =>
-      match lint_file is f with
+      match lint_file o f with
       | None => None
-      | Some (vs, is') => match lint_loop is' fs with None => None | Some (ws, is'') => Some (vs ++ ws, is'') end
+      | Some (vs, o') => match lint_loop o' fs with None => None | Some (ws, o'') => Some (vs ++ ws, o'') end
       end
     end.
 
-  Variable rules : list rule.                              (* the rule classes discovery finds, in registry order *)
-
-  (* lint_files on a new Orchestrator *)
+  (* lint_files on a new Orchestrator: its finalize loop runs over registry.list_all() WITHOUT discovery - when no file
+     got as far as the rules the registry is still empty *)
   Definition rseq_run (files : list file) : option (list violation) :=
-    match lint_loop (fresh rules) files with
+    match lint_loop None files with
     | None => None
-    | Some (vs, is) => Some (vs ++ finalize_all is)
+    | Some (vs, o) => Some (vs ++ finalize_all (list_all o))
     end.
 
   (* _lint_file_worker: new Orchestrator, lint_file, to_dict *)
   Definition rworker (q : pquirks) (f : file) : option (list pydict) :=
-    worker_result q (option_map fst (lint_file (fresh rules) f)).
+    worker_result q (option_map fst (lint_file None f)).
 
-  (* _collect_cross_file_evidence: the instances the selection picks (Gen parent_rule_selection) are run on every file
+  (* _collect_cross_file_evidence (after _ensure_rules_discovered): the instances the selection picks (Gen parent_rule_selection) are run on every file
      the loop does not skip; what they return is discarded; a re-raised exception leaves the loop *)
   Definition selected (r : rule) : bool :=
     match parent_rule_selection with SelOverridesFinalize => overrides r | SelAll => true end.
